@@ -1698,10 +1698,13 @@ func compileLogicalOpExprAux(context *funcContext, reg int, expr ast.Expr, ec *e
 		}
 	} else {
 		reg += compileExpr(context, reg, expr, ecnone(0))
-		if !hasnextcond {
-			code.AddABC(OP_TEST, a, 0, 0^flip, sline(expr))
-		} else {
+		// the operand is the value of the whole expression only when its jump leaves the expression
+		// (jumplabel is the end label); then it must be stored into the destination, otherwise the
+		// destination must stay untouched because the rest of the expression may still read it
+		if jumplabel == lb.e && sreg != a {
 			code.AddABC(OP_TESTSET, sreg, a, 0^flip, sline(expr))
+		} else {
+			code.AddABC(OP_TEST, a, 0, 0^flip, sline(expr))
 		}
 	}
 	code.AddASbx(OP_JMP, 0, jumplabel, sline(expr))
